@@ -1,6 +1,7 @@
 /- The build theorem at element level: the loop of `BuildTree` over grouped, consistent path/values
    succeeds, and the flattener reads back exactly the expected leaves. -/
 import OnosVerif.Proofs.TreeMemberSpec
+import OnosVerif.Proofs.TreeNodup
 import OnosVerif.Proofs.TreeOrd
 
 namespace OnosVerif.Tree
@@ -114,27 +115,61 @@ theorem build_step (hord : IsOrder ord) (sch : Schema) (S : List Entry) (K : Lis
     (np : List Str) (pre : GPath) (hg : GoodAt rfc K S) (hsch : SchemaOK sch np S)
     (hch : ∀ e : Elem, (∃ x ∈ S, IsStep e x) →
       ∃ mc, addAllE rfc ord (sub S e) (keyObj e.keys) = .ok (.obj mc) ∧ ObjSorted mc ∧
-        FlatChar rfc sch (np ++ [e.name]) (pre ++ [e]) e.keys (sub S e) mc) :
-    ∃ m, addAllE rfc ord S (keyObj K) = .ok (.obj m) ∧ ObjSorted m ∧ FlatChar rfc sch np pre K S m := by
+        FlatChar rfc sch (np ++ [e.name]) (pre ++ [e]) e.keys (sub S e) mc ∧
+        FlatNodup sch (np ++ [e.name]) (pre ++ [e]) mc) :
+    ∃ m, addAllE rfc ord S (keyObj K) = .ok (.obj m) ∧ ObjSorted m ∧ FlatChar rfc sch np pre K S m ∧
+      FlatNodup sch np pre m := by
   have hplain : ∀ x ∈ S, leafPlain x ∧ x.1 ≠ [] := fun x hx =>
     ⟨leafPlain_of_pathOK x (hg.each x hx).1, pathOK_nonempty _ (hg.each x hx).1⟩
   -- every member: its fold succeeds and is read back as specified
   have hfold : ∀ n, ∃ r, memberFold rfc ord (touching S n) (objGet (keyMembers K) n) = .ok r ∧
-      MemberSpec rfc sch np pre K S n r := by
+      MemberSpec rfc sch np pre K S n r ∧
+      (∀ w, r = some w → ((flatJ sch np pre n w).map (·.1)).Nodup) := by
     intro n
     rw [objGet_keyMembers]
     rcases touching_kinds rfc K S n hg with ht | ⟨v, ht⟩ | ⟨hne, hsteps⟩ | ⟨hne, KN, hL⟩
     · rw [ht]
-      exact ⟨_, rfl, memberSpec_untouched rfc sch np pre K S n hg.keysK ht⟩
+      refine ⟨_, rfl, memberSpec_untouched rfc sch np pre K S n hg.keysK ht, ?_⟩
+      intro w hw
+      cases hl : lookupKey K n with
+      | none => rw [hl] at hw; simp at hw
+      | some t =>
+        rw [hl] at hw
+        simp only [Option.map_some, Option.some.injEq] at hw
+        subst hw
+        rw [flatJ_str]; simp
     · rw [ht]
-      exact ⟨_, rfl, memberSpec_leaf rfc sch np pre K S n hg.keysK v ht⟩
+      refine ⟨_, rfl, memberSpec_leaf rfc sch np pre K S n hg.keysK v ht, ?_⟩
+      intro w hw
+      cases hlj : leafJson rfc v with
+      | some j1 =>
+        rw [hlj] at hw
+        simp only [upd, Option.some.injEq] at hw
+        subst hw
+        rw [flatJ_leaf rfc sch np pre n v j1 hlj]; simp
+      | none =>
+        rw [hlj] at hw
+        simp only [upd] at hw
+        cases hl : lookupKey K n with
+        | none => rw [hl] at hw; simp at hw
+        | some t =>
+          rw [hl] at hw
+          simp only [Option.map_some, Option.some.injEq] at hw
+          subst hw
+          rw [flatJ_str]; simp
     · -- container
       obtain ⟨x, hx⟩ := List.exists_mem_of_ne_nil _ hne
       have hxS := ((mem_touching S n x).1 hx).1
       have hnK : lookupKey K n = none :=
         lookupKey_none_of_step rfc K x { name := n, keys := [] } (hsteps x hx) (hg.each x hxS).2.2
-      obtain ⟨mc, hadd, _, hflat⟩ := hch { name := n, keys := [] } ⟨x, hxS, hsteps x hx⟩
-      refine ⟨some (.obj mc), ?_, memberSpec_container rfc sch np pre K S n mc hne hsteps hnK hflat⟩
+      obtain ⟨mc, hadd, _, hflat, hnodup⟩ := hch { name := n, keys := [] } ⟨x, hxS, hsteps x hx⟩
+      refine ⟨some (.obj mc), ?_, memberSpec_container rfc sch np pre K S n mc hne hsteps hnK hflat, ?_⟩
+      rotate_left
+      · intro w hw
+        simp only [Option.some.injEq] at hw
+        subst hw
+        rw [flatJ_obj]
+        exact hnodup
       rw [hnK, memberFold_container rfc ord { name := n, keys := [] } rfl _ _ hsteps]
       have hsubeq : tails (touching S n) = sub S { name := n, keys := [] } := by
         rw [← sub_of_steps _ _ hsteps]
@@ -172,51 +207,84 @@ theorem build_step (hord : IsOrder ord) (sch : Schema) (S : List Entry) (K : Lis
         have : e1 = e := by rw [hye] at h1; exact (Option.some.inj h1).symm
         subst this
         refine ⟨by rw [← hn1]; exact sub_touching e1 S, y, ((mem_touching S n y).1 hy).1, e', rest, hp⟩
-      obtain ⟨hs, items, hf, _, hmem, hall⟩ := memberFold_list rfc ord hord n KN (touching S n).length
+      obtain ⟨hs, items, hf, hsnd, hmem, hall⟩ := memberFold_list rfc ord hord n KN (touching S n).length
         (touching S n) [] (Nat.le_refl _) hL hnr (by simp) (by simp)
         (by
           intro e he
           obtain ⟨hsub, hstep⟩ := hsubS e he
           obtain ⟨mc, hadd, _, _⟩ := hch e hstep
           exact ⟨_, by rw [hsub]; exact hadd⟩)
-      refine ⟨some (.arr items), ?_, ?_⟩
+      have hschn : schemaLookup sch (np ++ [n]) = KN := by
+        rw [← hn0, ← hkn0]
+        exact schemaOK_head sch np S hsch x hxS e0 (e0' :: rest0) hp0 hk0
+      have hitem : ∀ e it, ((∃ y ∈ touching S n, headOf y = some e) ∧ FullMatch e.keys it ∧
+          addAllE rfc ord (sub (touching S n) e) (keyObj e.keys) = .ok it) →
+          e.name = n ∧ e.keys.map (·.1) = KN ∧ ∃ mc, it = .obj mc ∧ FullMatch e.keys (.obj mc) ∧
+            FlatChar rfc sch (np ++ [n]) (pre ++ [e]) e.keys (sub S e) mc ∧
+            FlatNodup sch (np ++ [n]) (pre ++ [e]) mc := by
+        intro e it ⟨he, hfm, hadd⟩
+        obtain ⟨hsub, hstep⟩ := hsubS e he
+        obtain ⟨mc, haddc, _, hflat, hnodup⟩ := hch e hstep
+        rw [hsub, haddc] at hadd
+        simp only [Except.ok.injEq] at hadd
+        subst hadd
+        obtain ⟨y, hy, hye⟩ := he
+        obtain ⟨e1, h1, hn1, _, hkn1, _⟩ := hL y hy
+        have : e1 = e := by rw [hye] at h1; exact (Option.some.inj h1).symm
+        subst this
+        refine ⟨hn1, hkn1, mc, rfl, hfm, ?_, ?_⟩
+        · rw [← hn1]; exact hflat
+        · rw [← hn1]; exact hnodup
+      refine ⟨some (.arr items), ?_, ?_, ?_⟩
       · rw [hnK]
         simp only [Option.map_none]
         rw [memberFold_none_list rfc ord _ hstepL hne, hf]
         simp
-      · have hschn : schemaLookup sch (np ++ [n]) = KN := by
-          rw [← hn0, ← hkn0]
-          exact schemaOK_head sch np S hsch x hxS e0 (e0' :: rest0) hp0 hk0
-        apply memberSpec_list rfc sch np pre K S n KN hs items hL hnK hschn hmem
+      rotate_left
+      · intro w hw
+        simp only [Option.some.injEq] at hw
+        subst hw
+        rw [flatJ_arr, hschn]
+        refine (flatA_nodup sch (np ++ [n]) pre n KN hs items (Forall2.imp ?_ hall) hsnd).1
+        intro e it h
+        obtain ⟨hen, hekn, mc, hmc, hfm, hflat, hnodup⟩ := hitem e it h
+        subst hmc
+        have hie : itemElem n KN mc = e := by
+          rw [← hen]; exact itemElem_of_fullMatch e KN mc hekn hfm
+        refine ⟨?_, ?_⟩
+        · rw [flatItem_obj, hie]; exact hnodup
+        · intro y hy
+          rw [flatItem_obj, hie] at hy
+          obtain ⟨q', hq', _⟩ := (hflat y.1 y.2).1 hy
+          exact ⟨q', hq'⟩
+      · apply memberSpec_list rfc sch np pre K S n KN hs items hL hnK hschn hmem
         refine Forall2.imp ?_ hall
-        intro e it ⟨he, hfm, hadd⟩
-        obtain ⟨hsub, hstep⟩ := hsubS e he
-        obtain ⟨mc, haddc, _, hflat⟩ := hch e hstep
-        rw [hsub, haddc] at hadd
-        simp only [Except.ok.injEq] at hadd
-        subst hadd
-        have hen : e.name = n := by
-          obtain ⟨y, hy, hye⟩ := he
-          obtain ⟨e1, h1, hn1, _⟩ := hL y hy
-          have : e1 = e := by rw [hye] at h1; exact (Option.some.inj h1).symm
-          rw [← this]; exact hn1
-        refine ⟨mc, rfl, hfm, ?_⟩
-        rw [← hen]
-        exact hflat
+        intro e it h
+        obtain ⟨_, _, mc, hmc, hfm, hflat, _⟩ := hitem e it h
+        exact ⟨mc, hmc, hfm, hflat⟩
   -- assemble
   have hokall : ∀ n, ∃ r, memberFold rfc ord (touching S n) (objGet (keyMembers K) n) = .ok r := by
     intro n; obtain ⟨r, hr, _⟩ := hfold n; exact ⟨r, hr⟩
   obtain ⟨m', hadd, hsorted, hget⟩ := addAllE_members rfc ord S (keyMembers K) hplain
     (keyMembers_sorted K hg.keysK) hokall
-  refine ⟨m', by rw [keyObj_eq]; exact hadd, hsorted, ?_⟩
-  have hspec : ∀ n, MemberSpec rfc sch np pre K S n (objGet m' n) := by
+  have hspec : ∀ n, MemberSpec rfc sch np pre K S n (objGet m' n) ∧
+      (∀ w, objGet m' n = some w → ((flatJ sch np pre n w).map (·.1)).Nodup) := by
     intro n
-    obtain ⟨r, hr, hs⟩ := hfold n
+    obtain ⟨r, hr, hs, hnd⟩ := hfold n
     have := hget n
     rw [hr] at this
     simp only [Except.ok.injEq] at this
     rw [← this]
-    exact hs
+    exact ⟨hs, hnd⟩
+  refine ⟨m', by rw [keyObj_eq]; exact hadd, hsorted, ?_, ?_⟩
+  rotate_left
+  · apply flatM_nodup sch np pre m' hsorted
+    · intro k v hkv
+      exact (hspec k).2 v ((mem_iff_objGet m' hsorted k v).1 hkv)
+    · intro k v hkv y hy
+      obtain ⟨a, q0, hqa, han, _⟩ := ((hspec k).1 y.1 y.2).1 ⟨v, (mem_iff_objGet m' hsorted k v).1 hkv, hy⟩
+      exact ⟨a, q0, hqa, han⟩
+  have hspec : ∀ n, MemberSpec rfc sch np pre K S n (objGet m' n) := fun n => (hspec n).1
   intro q j
   rw [mem_flatM]
   constructor
@@ -234,7 +302,8 @@ theorem build_step (hord : IsOrder ord) (sch : Schema) (S : List Entry) (K : Lis
 /-- the build theorem at element level, for every depth. -/
 theorem build_main (hord : IsOrder ord) (sch : Schema) : ∀ (d : Nat) (S : List Entry) (K : List (Str × Str))
     (np : List Str) (pre : GPath), (∀ x ∈ S, x.1.length ≤ d) → GoodAt rfc K S → SchemaOK sch np S →
-    ∃ m, addAllE rfc ord S (keyObj K) = .ok (.obj m) ∧ ObjSorted m ∧ FlatChar rfc sch np pre K S m := by
+    ∃ m, addAllE rfc ord S (keyObj K) = .ok (.obj m) ∧ ObjSorted m ∧ FlatChar rfc sch np pre K S m ∧
+      FlatNodup sch np pre m := by
   intro d
   induction d with
   | zero =>
